@@ -384,9 +384,8 @@ func (c ProtoMapCodec) Append(data []byte, ptr unsafe.Pointer, tag []byte) []byt
 }
 
 func (c ProtoMapCodec) Read(data []byte, ptr unsafe.Pointer, wt plenccore.WireType) (n int, err error) {
-	if len(data) == 0 {
-		return 0, nil
-	}
+	// Each call reads one entry. An empty entry is an entry too: its key and
+	// value are both zero and so were omitted
 
 	// ptr is a pointer to a map pointer
 	if *(*unsafe.Pointer)(ptr) == nil {
